@@ -157,6 +157,30 @@ fn check_instant(ts: i64, trans: &[i64], zone: &str, acc: &mut Acc) {
                     acc.hit(format!("not-strictly-after-now:{}", unit), format!("TZ={} now={} {} x{} modulate={}: next={} is not after now", zone, now.to_rfc3339(), unit, n, modulate, next.to_rfc3339()), case());
                     continue;
                 }
+                // The reference boundary itself: if its earliest occurrence after now is reached without any offset
+                // change, that occurrence is the next rotation (the exemption is taken relative to the reference, not
+                // to the implementation's answer — otherwise any answer beyond the next transition would be exempt).
+                if let Some(want) = reference_next(now.naive_local(), unit, n, modulate) {
+                    let cands: Vec<chrono::DateTime<Local>> = match Local.from_local_datetime(&want) {
+                        chrono::LocalResult::Single(t) => vec![t],
+                        chrono::LocalResult::Ambiguous(a, b) => vec![a, b],
+                        chrono::LocalResult::None => vec![],
+                    };
+                    if let Some(e) = cands.into_iter().filter(|t| *t > now).min() {
+                        let ets = e.timestamp();
+                        let i = trans.partition_point(|t| *t <= ts);
+                        let change_before = i < trans.len() && trans[i] <= ets;
+                        let known = trans.is_empty() || ets < *trans.last().unwrap();
+                        if !change_before && known && next != e {
+                            acc.hit(
+                                format!("skipped-boundary:{}", unit),
+                                format!("TZ={} now={} {} x{} modulate={}: the boundary {} is reached without an offset change, but next={}", zone, now.to_rfc3339(), unit, n, modulate, e.to_rfc3339(), next.to_rfc3339()),
+                                case(),
+                            );
+                            continue;
+                        }
+                    }
+                }
                 // boundary oracle only where the offset does not change between now and next
                 let nts = next.timestamp();
                 let i = trans.partition_point(|t| *t <= ts);
